@@ -124,6 +124,8 @@ class SimSpec(vlib.Spec):
             [{"kind": "pass", "q": [1, 2], "tr": None}, {"kind": "stream_t", "q": [], "tr": None}],
             [{"kind": "pass", "q": [], "tr": None}, {"kind": "stream_t", "q": [10], "tr": None}],
             [{"kind": "stream_t", "q": [10], "tr": None}, {"kind": "pass", "q": [], "tr": None}],
+            [{"kind": "pass", "q": [], "tr": None, "last": 7}, {"kind": "stream_t", "q": [10], "tr": None}],
+            [{"kind": "stream_n", "q": [10, 20], "tr": None}, {"kind": "pass", "q": [], "tr": None, "last": 7}],
             [{"kind": "ksingle", "m": [[1, [10, 11]], [2, [20]]], "tr": None, "last": [[1, 9]]},
              {"kind": "keyed_n", "m": [[1, [10, 11]], [2, []]], "tr": None}],
             [{"kind": "stream_n", "q": [1], "tr": None}, {"kind": "stream_n", "q": [2], "tr": None},
@@ -177,18 +179,6 @@ class SimSpec(vlib.Spec):
     def shrink(self, case):
         return sim.shrink_case(case)
 
-    def finding_key(self, case, res):
-        """known class: run_hooks panics (no decision to release / usize underflow) on a runnable
-        tick that contains a passthrough singleton hook whose queue is empty at that round"""
-        if case.get("k") != "tick":
-            return None
-        for r in res.get("rounds", []):
-            if r.get("panic") in (1, 5) and r.get("can_run"):
-                for h, b in zip(case["hooks"], r.get("before", [])):
-                    if h["kind"] == "pass" and all(not q for _, q in b):
-                        return "run_hooks/passthrough-empty-with-releasable-sibling"
-        return None
-
     def nontrivial(self, case, res):
         """some round actually released something"""
         if case["k"] == "inline":
@@ -230,7 +220,7 @@ class C36(SimSpec):
     theorems = ["C36_total_prefix", "C36_noorder_subsequence", "C36_keyed_total_per_key",
                 "C36_keyed_noorder_per_key", "C36_single_monotone", "C36_single_versions",
                 "C36_pass_latest", "C36_ksingle_per_key", "C36_run_hooks_releases_new",
-                "C36_can_run_iff", "C36_run_hooks_no_panic_refuted", "C36_top_order_sound",
+                "C36_can_run_iff", "C36_run_hooks_no_panic", "C36_top_order_sound",
                 "C36_top_fold_sound", "C36_top_merge_sound", "C36_inline_shuffle_perm",
                 "C36_inline_merge_interleaves"]
     trusted_base = ["coqc 8.16.1 kernel (vm_compute used for case evaluation only)",
@@ -242,7 +232,8 @@ class C36(SimSpec):
         "FxHashMap iteration order is an oracle: read from the implementation per round and fed to the model",
         "usize underflow modelled as panic (debug-profile overflow checks)",
         "verif_can_run re-states SimTick::can_run on a bare hook list (SimTick needs a DFIR); a change to can_run itself is not seen",
-        "tick-level property assumes idle hooks and can_run; the PassthroughSingletonHook-with-empty-queue panic is a recorded finding (re-derived on every run)",
+        "tick-level property assumes idle hooks, can_run, and (keyed singleton) that a key with an empty queue was released before",
+        "run_hooks is also driven on ticks that can_run reports NOT runnable (the scheduler never does): the explicit 'No input and no last released item' panics there are modelled and compared, not property failures",
         "unkeyed TopLevel hooks (order, fold, merge_ordered) and inline hooks (StreamOrder, MergeOrdered) are modelled; the keyed TopLevel/inline kinds (6 of 18 hook kinds) are not",
     ]
     rule = ("hook or tick (list of hooks under run_hooks) + rounds of (push, force, decision script); exhaustive: every "
